@@ -55,6 +55,8 @@ type c17Sess struct {
 	modelLost     bool     // the model declared an input outside its domain: its table is no longer comparable
 }
 
+var c17NExports int
+
 func newC17Sess(c *Ctx, l *lib.Lean, name string) *c17Sess {
 	return &c17Sess{c: c, l: l, name: name, csvMode: "plain"}
 }
@@ -632,6 +634,19 @@ func (s *c17Sess) Op(line string) string {
 			return "error:" + err.Error()
 		}
 		out := s.nextFile("export.csv.gz")
+		// every second export goes to a path where a LARGER file already lies (an older export of a longer chain,
+		// the shipped data file): the export has to replace it, not write into it
+		c17NExports++
+		if c17NExports%2 == 0 {
+			junk := make([]byte, 2<<20)
+			x := uint32(c17NExports)*2654435761 + 12345
+			for i := range junk {
+				x = x*1664525 + 1013904223
+				junk[i] = byte(x >> 24)
+			}
+			_ = os.WriteFile(out, junk, 0o644)
+			s.c.R.Count("export over an existing larger file", 1)
+		}
 		if err := c17Export(s.src.file, out); err != nil {
 			return "error:export:" + err.Error()
 		}
